@@ -311,12 +311,12 @@ func (w *World) contractFor(fn *ssa.Function) *Contract {
 		if c, ok := w.contracts[pp+"::"+key]; ok && (c.Kind == "func" || c.Kind == "closure") {
 			return c
 		}
-		// cgo stubs (_Cfunc_*) have generated bodies that call into C: assumed contracts (extern)
-		if strings.HasPrefix(key, "_Cfunc_") {
-			for _, c := range w.all {
-				if c.Kind == "extern" && c.Target == pp+"."+key {
-					return c
-				}
+		// cgo stubs (_Cfunc_*) have generated bodies that call into C; a function of another
+		// package of the module may be given an assumed contract instead of being expanded
+		// (listed as trusted wherever it is used)
+		for _, c := range w.all {
+			if c.Kind == "extern" && c.Target == pp+"."+key {
+				return c
 			}
 		}
 		return nil
